@@ -14,3 +14,24 @@ PROPS['C03'] = dict(level='model_checking',
   harnesses=[
     H('stop_reg_vs_stop', 'C03_stop.cpp', ['h_reg1', 'h_stop_a'], 26, final='h_final_1s', desc='register/deregister racing one request_stop'),
   ])
+
+PROPS['C15'] = dict(level='model_checking',
+  bounds='v1: 2 lockers + try_lock prober (T=3) and 3 lockers; v2: see harness list; K per harness',
+  outside='more than 3 contending parties, seq_cst fence strength (SC model)',
+  harnesses=[
+    H('v1_two_lockers_try', 'C15_mutex_v1.cpp', ['h_lock0', 'h_lock1', 'h_try'], 30, final='h_final2', desc='two async_lock + one try_lock/unlock'),
+  ])
+
+PROPS['C16'] = dict(level='model_checking',
+  bounds='manual-reset event v1: 2 waiters + setter (+ late waiter); K per harness',
+  outside='more than 3 parties; weak cmpxchg spurious failure (modelled as strong); weak memory',
+  harnesses=[
+    H('ev1_two_waiters_set', 'C16_event_v1.cpp', ['h_wait0', 'h_wait1', 'h_set'], 16, final='h_final2', desc='two async_wait racing one set()'),
+  ])
+
+PROPS['C08'] = dict(level='model_checking',
+  bounds='v2 scope: 2 nesting threads (nest+start+complete own leaf) + 1 joiner (quick), 1 nester + 2 joiners; K per harness',
+  outside='more than 2 concurrently nested operations',
+  harnesses=[
+    H('v2_two_nest_one_join', 'C08_scope_v2.cpp', ['h_nest0', 'h_nest1', 'h_join0'], 24, final='h_final1', desc='two nest/start/complete racing join'),
+  ])
